@@ -28,7 +28,8 @@ TARGETS = ['valjean.gavroche.stat_tests.student:TestStudent.__init__',
            'valjean.gavroche.stat_tests.student:TestResultStudent.test_pvalue',
            'valjean.gavroche.test:check_bins', 'valjean.eponine.dataset:Dataset.__sub__']
 BOUNDS = {
-    'quick': {'shapes': ['scalar(np.generic)', '()', '(1,)', '(2,)', '(2,2)'], 'datasets_compared': [1, 2],
+    'quick': {'float-level job': 'concrete alpha in {1e-2 ... 1e-300}, t in {0.5 ... 50} sigmas, ndf none / 3 / 1000, scalar or array datasets: verdict vs an independent accurate critical value and vs the p-value decision (what the extended-real model cannot see)',
+              'shapes': ['scalar(np.generic)', '()', '(1,)', '(2,)', '(2,2)'], 'datasets_compared': [1, 2],
               'ndf': ['None', 'opaque (any value; code may only pass it to the law functions); replay values 1, 2, 20'], 'alpha': 'symbolic real in (0,1)',
               'cells': 'extended reals: finite of either sign, NaN, +inf, -inf; errors >= 0, NaN or +inf',
               'relational_twins': ['symmetry', 'rescaling', 'monotonicity'], 'twin_shapes': ['scalar', '(2,)']},
@@ -222,8 +223,45 @@ def _job(kind, shape, scalar, nds, with_ndf, timeout_ms, seed=0):
     return run_sym('x', h, timeout_ms=timeout_ms, seed=seed, require_checks=req, logic='QF_NRA')
 
 
+def float_harness(ex):
+    """what the extended-real model cannot see: floating point at extreme significance levels.  Concrete alpha from a pool
+    (down to 1e-300), concrete t (in sigmas), with or without ndf, scalar or array datasets; the real verdict is compared with
+    an independent, numerically accurate reference (survival-function inverse) and with the p-value decision"""
+    from scipy.stats import norm, t as student_t
+    from valjean.eponine.dataset import Dataset
+    from valjean.gavroche.stat_tests.student import TestStudent
+    alpha = [1e-2, 1e-9, 1e-13, 1e-15, 1e-17, 1e-40, 1e-300][ex.choice(7, 'alpha')]
+    tsig = [0.5, 5.0, 7.4405, 7.4415, 9.0, 50.0][ex.choice(6, 't-in-sigmas')]
+    ndf = [None, 3, 1000][ex.choice(3, 'ndf')]
+    scalar = bool(ex.flag('scalar-datasets'))
+    sgn = -1.0 if ex.flag('negative-difference') else 1.0
+    e = 1.0 / np.sqrt(2.0)          # two errors of 1/sqrt(2): the quadratic sum is 1, so t = difference
+    if scalar:
+        a, b = Dataset(np.float64(0.0), np.float64(e)), Dataset(np.float64(sgn * tsig), np.float64(e))
+    else:
+        a, b = Dataset(np.array([0.0, 1.0]), np.array([e, e])), Dataset(np.array([sgn * tsig, 1.0]), np.array([e, e]))
+    res = TestStudent(a, b, name='t', alpha=alpha, ndf=ndf).evaluate()
+    crit = norm.isf(alpha / 2) if ndf is None else student_t.isf(alpha / 2, ndf)
+    tval = tsig
+    near = abs(tval - crit) <= 1e-6 * max(1.0, crit)
+    if not near and np.isfinite(crit):
+        ex.check(bool(res) == (tval < crit), 'float:verdict-agrees-with-the-critical-value-at-extreme-significance-levels',
+                 detail=f'alpha={alpha} ndf={ndf} t={tval} critical value={crit} verdict={bool(res)}')
+    if not near:
+        pv = float(np.min(np.asarray(res.pvalue[0], dtype=float)))
+        if pv > 0.0:            # an underflowing p-value (0.0) is below every alpha: nothing to compare
+            ex.check(bool(res) == bool(pv > alpha) or abs(pv - alpha) <= 1e-6 * alpha,
+                     'float:verdict-agrees-with-the-p-value-decision-at-extreme-significance-levels',
+                     detail=f'alpha={alpha} ndf={ndf} t={tval} p={pv} verdict={bool(res)}')
+
+
+def _job_float(timeout_ms, seed=0):
+    return run_sym('x', float_harness, timeout_ms=timeout_ms, seed=seed,
+                   require_checks=['float:verdict-agrees-with-the-critical-value-at-extreme-significance-levels'])
+
+
 def jobs(tier):
-    out = []
+    out = [('float-extreme-alpha', _job_float, dict(timeout_ms=30000))]
     t = 30000 if tier == 'quick' else 300000
     b = BOUNDS[tier]
     shapes = [('scalar', (), True)] + [(s, eval(s), False) for s in b['shapes'] if not s.startswith('scalar')]
@@ -247,6 +285,8 @@ def jobs(tier):
 
 
 def replay(rp):
+    if rp['job'] == 'float-extreme-alpha':
+        return replay_sym(float_harness, rp['inputs'])
     for j in jobs('thorough') + jobs('quick'):
         if j[0] == rp['job']:
             p = j[2]
